@@ -62,7 +62,7 @@ CFG = {
     "n": {"quick": 9000, "thorough": 300000},
     "exhaustive": {"quick": False, "thorough": False},
     "trivial_tags": ["plain"],
-    "rule": "a case is one history on one real Store<Root> of the fixed #[derive(Store, Patch)] family (nested structs to depth 3, "
+    "rule": "a case is one history on one real store of type Root, held through one of the store handles as a mode of the case (the arena Store from Store::new in half the cases, an ArcStore cloned for every use in a quarter, a Store converted from an ArcStore in a quarter; the model treats the handle family as transparent), of the fixed #[derive(Store, Patch)] family (nested structs to depth 3, "
             "Option fields at depth 1 and 2, Vec field, keyed Vec of structs at depth 1 and 2, a Box field behind DerefedField with a "
             "custom #[patch] closure; shapes with attributes: #[store(skip)] first / in the middle / last, a tuple struct, an enum with a struct-like, a tuple and a unit variant). Readers are Effects on the controlled executor or ImmediateEffects (wake order), and read in every "
             "public way: .get / .read / .with / .track+read_untracked, OptionStoreExt::map / invert / unwrap, Field and ArcField handles "
